@@ -43,10 +43,13 @@ impl AckFrequencyState {
         // Use the peer's max_ack_delay if no custom max_ack_delay was provided in the config
         let min_ack_delay =
             Duration::from_micros(peer_params.min_ack_delay.map_or(0, |x| x.into()));
+        // The peer may advertise a `min_ack_delay` above our preferred upper bound; the requested
+        // value must never be below it, so the upper bound yields (`clamp` panics if min > max).
+        let upper = rtt.max(MIN_AUTOMATIC_ACK_DELAY).max(min_ack_delay);
         config
             .max_ack_delay
             .unwrap_or(self.peer_max_ack_delay)
-            .clamp(min_ack_delay, rtt.max(MIN_AUTOMATIC_ACK_DELAY))
+            .clamp(min_ack_delay, upper)
     }
 
     /// Returns the `max_ack_delay` for the purposes of calculating the PTO
